@@ -67,10 +67,13 @@ package server
 //@   loop 4 invariant forall f bgp.Family :: has(remote, f) ==> pre(has(remote, f)) || f == family
 //@   loop 5 invariant forall f bgp.Family :: has(remote, f) ==> pre(has(remote, f)) || f == family
 //@ func (*fsm).stateChange
-//@   tag C08 C12
-//@   claims at-call
+//@   tag C08 C12 C07
+//@   claims at-call at-return
 //@   at-call fsm.gConf.IsConfederationMember( requires conf.Timers.State.NegotiatedHoldTime == (float64(body.HoldTime) > conf.Timers.Config.HoldTime ? conf.Timers.Config.HoldTime : float64(body.HoldTime))
 //@   at-call fsm.gConf.IsConfederationMember( requires conf.Timers.State.KeepaliveInterval == (conf.Timers.State.NegotiatedHoldTime < conf.Timers.Config.HoldTime ? conf.Timers.State.NegotiatedHoldTime / 3 : conf.Timers.Config.KeepaliveInterval)
+// ... and the hold timer of OpenConfirm is already the negotiated one (RFC 4271 8.2.2, event 19: on receipt of the
+// OPEN the hold timer is set to the negotiated value): the value is in place when OpenConfirm is entered
+//@   at-return requires nextState == bgp.BGP_FSM_OPENCONFIRM && fsm.recvOpen != nil && typeOf(fsm.recvOpen.Body) == (*bgp.BGPOpen) ==> conf.Timers.State.NegotiatedHoldTime == (float64(fsm.recvOpen.Body.(*bgp.BGPOpen).HoldTime) > conf.Timers.Config.HoldTime ? conf.Timers.Config.HoldTime : float64(fsm.recvOpen.Body.(*bgp.BGPOpen).HoldTime))
 //@   at-call fsm.gConf.IsConfederationMember( requires fsm.isEBGP == (remoteAS != localAS)
 // from C08: "peer type taken from the real remote AS": with no configured peer AS the reported peer type is internal
 // exactly when the AS in the peer's OPEN is the session's local AS; otherwise the configured type is reported
